@@ -1,11 +1,14 @@
 (* C14 - Maintenance operations are idempotent and always converge to the batch state.
    Proved here: purge removes every entry the indicator tree wrote - helper series at any
-   depth included - and nothing else.  Idempotence of calculate and convergence to the
-   batch state are proved for leaf indicators in Proofs/EngineProofs.v and restated below
-   once available; for composite indicators they are decided by correspondence + falsifier. *)
+   depth included - and nothing else; for leaf indicators that are pure and causal (the
+   obligations are discharged in Props/C01.v for HLA, TR, OBV, EMA, SMA, RMA, WMA, ROC,
+   Counter and the Amorph wrappers): calculate() again changes nothing, recalculate()
+   reproduces exactly the store it replaced, and recomputing an index that already holds a
+   reading - by its positive or its negative index - leaves the store as it was.  For
+   composite indicators and whole operation programs: correspondence + falsifier. *)
 From Coq Require Import ZArith List String Bool.
 From Hexital Require Import Base.Prelude Base.Num Model.Manager Model.Candle Model.Readings Model.Engine
-  Proofs.AccessProofs Proofs.EngineProofs.
+  Proofs.AccessProofs Proofs.EngineProofs Proofs.MaintProofs.
 Import ListNotations.
 
 Theorem C14_purge_exact :
@@ -19,8 +22,7 @@ Theorem C14_purge_exact :
 Proof. exact purge_exact. Qed.
 Print Assumptions C14_purge_exact.
 
-(* calling calculate() again changes nothing (leaf indicators that are pure and causal:
-   HLA, TR, OBV, EMA have the obligations discharged in Props/C01.v) *)
+(* calling calculate() again changes nothing *)
 Theorem C14_calculate_idempotent_leaf :
   forall (O : NumOps) (I : ind O) (calc : store O -> Z -> res (val O)),
   i_subs O I = [] /\ i_managed O I = [] ->
@@ -30,3 +32,52 @@ Theorem C14_calculate_idempotent_leaf :
   calculate O I ds = Ok st -> calculate O I st = Ok st.
 Proof. intros O I calc Hl Hp Hc ds st Hf H. eapply engine_calculate_idempotent; eassumption. Qed.
 Print Assumptions C14_calculate_idempotent_leaf.
+
+(* recalculate() = purge then calculate reproduces exactly the readings it replaced: st is
+   any store the engine can have produced (IsCanon: built candle by candle by calculate /
+   append in any schedule, C01) *)
+Theorem C14_recalculate_reproduces_leaf :
+  forall (O : NumOps) (I : ind O) (calc : store O -> Z -> res (val O)),
+  i_subs O I = [] /\ i_managed O I = [] ->
+  (forall rec st i, calc_reading O rec I st i = (v <- calc st i ;; Ok (v, st))) ->
+  Causal O I calc ->
+  forall st : store O, IsCanon O I calc st -> calculate O I (purge O I st) = Ok st.
+Proof. intros O I calc Hl Hp Hc st H. eapply recalculate_reproduces; eassumption. Qed.
+Print Assumptions C14_recalculate_reproduces_leaf.
+
+(* calculate_index at an index that already holds a reading, positive or negative *)
+Theorem C14_calc_index_reproduces_leaf :
+  forall (O : NumOps) (I : ind O) (calc : store O -> Z -> res (val O)),
+  i_subs O I = [] /\ i_managed O I = [] ->
+  (forall rec st i, calc_reading O rec I st i = (v <- calc st i ;; Ok (v, st))) ->
+  Causal O I calc ->
+  forall (st : store O) (i : Z), IsCanon O I calc st -> (- zlen st <= i < zlen st)%Z ->
+  calculate_index O I i None st = Ok st.
+Proof. intros O I calc Hl Hp Hc st i H Hi. eapply calc_index_reproduces; eassumption. Qed.
+Print Assumptions C14_calc_index_reproduces_leaf.
+
+(* operation programs: from the empty indicator, any sequence of append(chunk), calculate(),
+   purge(), recalculate() and calculate_index(i) on a computed index of a fully calculated
+   store (Reach, Proofs/MaintProofs.v) leads to a state on which calculate() gives exactly
+   what one calculate() over all the candles appended so far gives - the same store, or the
+   same exception if the batch raises *)
+Theorem C14_programs_converge_leaf :
+  forall (O : NumOps) (I : ind O) (calc : store O -> Z -> res (val O)),
+  i_subs O I = [] /\ i_managed O I = [] ->
+  (forall rec st i, calc_reading O rec I st i = (v <- calc st i ;; Ok (v, st))) ->
+  Causal O I calc ->
+  forall (st : store O) (ds : list (cd (payload O))), Reach O I calc st ds ->
+  calculate O I st = calculate O I ds.
+Proof. intros O I calc Hl Hp Hc st ds H. eapply programs_converge; eassumption. Qed.
+Print Assumptions C14_programs_converge_leaf.
+
+(* the relation is inhabited by more than the empty program: e.g. append, purge, append *)
+Example C14_reach_example :
+  forall (O : NumOps) (I : ind O) (calc : store O -> Z -> res (val O)) xs ys s1 s2,
+  Forall (fresh O I) xs -> Forall (fresh O I) ys ->
+  calculate O I ([] ++ xs) = Ok s1 -> calculate O I (purge O I s1 ++ ys) = Ok s2 ->
+  Reach O I calc s2 (([] ++ xs) ++ ys).
+Proof.
+  intros O I calc xs ys s1 s2 Hx Hy H1 H2.
+  eapply R_append; [apply R_purge; eapply R_append; [apply R_init|exact Hx|exact H1]|exact Hy|exact H2].
+Qed.
